@@ -261,30 +261,30 @@ def goodEcho (v : Ver) (e : Echo) : Bool :=
 
 /-- what arrives between two quiet moments of the stream: the echo of a request, a reply, or an
 echo directly followed by a reply (reads may then carry bytes of both) -/
-inductive Unit
+inductive Burst
   | echoOnly (e : Echo)
   | replyOnly (r : Reply)
   | echoReply (e : Echo) (r : Reply)
   deriving Repr
 
-def Unit.bytes : Unit → Bytes
+def Burst.bytes : Burst → Bytes
   | .echoOnly e => e.body ++ e.tail
   | .replyOnly r => r.body ++ r.tail
   | .echoReply e r => (e.body ++ e.tail) ++ (r.body ++ r.tail)
 
-def Unit.replies : Unit → List Reply
+def Burst.replies : Burst → List Reply
   | .echoOnly _ => []
   | .replyOnly r => [r]
   | .echoReply _ r => [r]
 
-def Unit.good (v : Ver) : Unit → Bool
+def Burst.good (v : Ver) : Burst → Bool
   | .echoOnly e => goodEcho v e
   | .replyOnly r => goodReply v r
   | .echoReply e r => goodEcho v e && goodReply v r
 
 /-- a unit together with the way the transport cut it into reads -/
 structure Delivery where
-  unit : Unit
+  burst : Burst
   chunks : List Bytes
   deriving Repr
 
@@ -292,8 +292,8 @@ structure Delivery where
 may carry echo and reply bytes together, the read loop gets one idle iteration (an empty read)
 before bytes of a further server message arrive -/
 def Delivery.valid (v : Ver) (d : Delivery) : Bool :=
-  d.unit.good v && (d.chunks.flatten == d.unit.bytes) &&
-  (match d.unit with
+  d.burst.good v && (d.chunks.flatten == d.burst.bytes) &&
+  (match d.burst with
    | .echoReply _ _ => d.chunks.getLast? == some []
    | _ => true)
 
